@@ -59,6 +59,7 @@ func init() {
 }
 
 func runC40(c *Ctx) {
+	c40Converters(c)
 	requireStateless(c, "M1-no-state-between-requests",
 		"(*control/drkey/grpc.Server).DRKeyLevel1", "(*control/drkey/grpc.Server).DRKeyIntraLevel1",
 		"(*control/drkey/grpc.Server).DRKeyASHost", "(*control/drkey/grpc.Server).DRKeyHostAS",
